@@ -223,6 +223,17 @@ HeldTag == "ROOT_RESPELLED_EMPTYREL"
 HeldJoin(f, q)       == RootRespelled(f) /\ Comps(q) = <<>>
 HeldReplace(f, q, g) == (RootRespelled(f) \/ RootRespelled(g)) /\ Comps(q) = <<>>
 
+\* Input class on which the UNCHANGED helpers do not satisfy the unary / equality laws (reported to the maintainers; the cases
+\* are generated, executed and judged like all others, the driver lists their law failures under this stratum tag instead of
+\* reporting them - c13.py, HELD): drive letters on, case-insensitive, and a string whose first name starts with U+0130 ':',
+\* i.e. a "drive" whose letter lower() turns into two characters.  join leaves "U+0130 :" alone as a drive, its lower-cased
+\* form 'i' U+0307 ':' has no ':' in second place any more and is made absolute: normalize_path is not idempotent there
+\* (normalize_path("\u0130:") = "i\u0307:", normalize_path("i\u0307:") = "/i\u0307:") and a path does not match its normal form.
+DriveTag == "DRIVE_LETTER_FOLD_GROWS"
+DriveFoldGrows(c, s) ==
+  c.win /\ ~c.cs /\ Len(Comps(s)) > 0 /\ Len(Comps(s)[1]) >= 2 /\ Comps(s)[1][1] = UIDOT /\ Comps(s)[1][2] = COLON
+HeldIn(c, strings) == \E s \in strings : DriveFoldGrows(c, s)
+
 \* ============================== Part 2: observations ==============================
 \* (sub-results are shared through LET; PathsMatch(a, b, d) is written Norm(a, d) = Norm(b, d) on shared normal forms)
 OnStr(r, e)     == IF K(r) = 1 THEN e ELSE Skip      \* a helper applied to something that is not a string is not evaluated
@@ -502,21 +513,21 @@ PathsNext ==
   /\ UNCHANGED <<vc, vc2>>
 PathsSpec == PathsInit /\ [][PathsNext]_pvars
 
-\* the design satisfies its laws (checked by TLC for every enumerated (vc, vc2, vp, vq, vr))
-DesignU == LET o == ObsU(vc, vp) IN \A law \in LawsU : HoldsU(law, vc, vp, o)
-DesignB == LET o == ObsB(vc, vp, vq) IN \A law \in LawsB : HoldsB(law, vc, vp, vq, o)
-DesignT == LET o == ObsT(vc, vp, vq, vr) IN \A law \in LawsT : HoldsT(law, vc, vp, vq, vr, o)
-DesignX == OneSided \/ LET o == ObsX(vc, vc2, vp, vr, vq) IN \A law \in LawsX, side \in {0, 1} : HoldsX(law, side, vc, vc2, vp, vr, vq, o)
+\* the design satisfies its laws (checked by TLC for every enumerated (vc, vc2, vp, vq, vr) outside the held input class)
+DesignU == HeldIn(vc, {vp}) \/ LET o == ObsU(vc, vp) IN \A law \in LawsU : HoldsU(law, vc, vp, o)
+DesignB == HeldIn(vc, {vp, vq}) \/ LET o == ObsB(vc, vp, vq) IN \A law \in LawsB : HoldsB(law, vc, vp, vq, o)
+DesignT == HeldIn(vc, {vp, vq, vr}) \/ LET o == ObsT(vc, vp, vq, vr) IN \A law \in LawsT : HoldsT(law, vc, vp, vq, vr, o)
+DesignX == OneSided \/ HeldIn(vc, {vp, vq, vr}) \/ HeldIn(vc2, {vp, vq, vr}) \/ LET o == ObsX(vc, vc2, vp, vr, vq) IN \A law \in LawsX, side \in {0, 1} : HoldsX(law, side, vc, vc2, vp, vr, vq, o)
 \* folders as spelled: every string vp / vr that is an absolute spelling (raw), and the listed re-spellings of join(vp) /
 \* join(vr), which reach longer strings
-DesignSRaw == LET o == ObsS(vc, vp, vq, vr) IN \A law \in LawsS : HoldsS(law, vc, vp, vq, vr, o)
+DesignSRaw == HeldIn(vc, {vp, vq, vr}) \/ LET o == ObsS(vc, vp, vq, vr) IN \A law \in LawsS : HoldsS(law, vc, vp, vq, vr, o)
 DesignSSpell ==
   \A k \in 0..NSpell :
     LET fs == Spell(vc, Join(vc, <<vp>>), k)
         gs == Spell(vc, Join(vc, <<vr>>), k)
         o  == ObsS(vc, fs, vq, gs)
     IN \A law \in LawsS : HoldsS(law, vc, fs, vq, gs, o)
-DesignYRaw == OneSided \/ LET o == ObsY(vc, vc2, vp, vr, vq) IN \A law \in LawsY, side \in {0, 1} : HoldsY(law, side, vc, vc2, vp, vr, vq, o)
+DesignYRaw == OneSided \/ HeldIn(vc, {vp, vq, vr}) \/ HeldIn(vc2, {vp, vq, vr}) \/ LET o == ObsY(vc, vc2, vp, vr, vq) IN \A law \in LawsY, side \in {0, 1} : HoldsY(law, side, vc, vc2, vp, vr, vq, o)
 DesignYSpell ==
   OneSided \/ \A k \in 0..NSpell :
     LET A == Spell(vc, Join(vc, <<vp>>), k)
